@@ -23,6 +23,7 @@ Driver of the integrated simulation model (exe `drv_sim`).  One request per line
                 per method = cost,flags|-,tags|-,visited,travel,survey,upfront,sRolls,tRolls,missingRolls
   trace <n>  -> per method: m issued=[..] plan=[..] out=[[site,complete,inProgress,surveyed,crew|-],..] done=[[site,measured,nTargets],..]
   rec <idx>  -> present status activeDays emitDays start end|- theoryEnd mitDays tagged by initDetect|- initDetectBy|- [[m,b],..]
+                measured|- estDays        (measured rate p/q in hundredths of the rate unit)
   state <m>  -> queue / pool / flags of method m after the run
 Rationals are written p/q.
 -/
@@ -152,10 +153,12 @@ def showTrace (t : MethTrace) : String :=
   let dn := showList (fun (d : Done) => s!"[{d.sv.site},{d.rep.measured},{d.targets.length}]") t.dones
   s!"{t.m} issued={showList toString t.issued} plan={showList toString t.keys} budget={t.budget} out={outs} done={dn}"
 
-def showRec (r : Rec) (c : Cov) : String :=
+def showRec (r : Rec) (c : Cov) (x : Ext) : String :=
   let cov := showList (fun (x : Nat × Bool) => s!"[{x.1},{showBool x.2}]") c
+  let meas := match x.measured with | some q => showRat q | none => "-"
   s!"{showBool r.present} {showStatus r.status} {r.activeDays} {r.emitDays} {r.start} {showOptInt r.endDate} " ++
-  s!"{r.theoryEnd} {r.mitDays} {showBool r.tagged} {showBy r.by_} {showOptInt r.initDetect} {showOptNat r.initDetectBy} {cov}"
+  s!"{r.theoryEnd} {r.mitDays} {showBool r.tagged} {showBy r.by_} {showOptInt r.initDetect} {showOptNat r.initDetectBy} {cov} " ++
+  s!"{meas} {x.estDays}"
 
 def showMState (c : MethodCfg) (m : MethSt) : String :=
   let q := showList (fun (e : Sched.Entry) => s!"[{e.cls},{e.rate},{e.site}]") m.sched.q.entries
@@ -290,7 +293,7 @@ def step (s : DState) (toks : List String) : DState × String :=
     match nat? i, s.final with
     | some i, some st =>
       match s.ems[i]?, st.ss[i]? with
-      | some info, some e => (s, showRec (recOf s.nRun info e) (st.covs.getD i []))
+      | some info, some e => (s, showRec (recOf s.nRun info e) (st.covs.getD i []) (st.ext.getD i {}))
       | _, _ => (s, "no-rec")
     | _, _ => (s, "bad-op")
   | ["state", m] =>
